@@ -78,6 +78,13 @@ var c10Shapes = []c10Shape{
 		p.Sample[1].NumUnit = map[string][]string{"req": {"milligcu"}}
 	}},
 	{"dup-types", "milligcu", 5000000000, 5, func(p *profile.Profile) { p.SampleType[0].Type = "cost" }}, // two sample types of one name
+	{"inline-special-names", "nanoseconds", 5000000000000000, 5, func(p *profile.Profile) { // inlined lines at the leaf and at the root, names needing escaping
+		p.Function[2].Name = "ns::tpl<a b>(\"q\")"
+		p.Location[0].Line = append(p.Location[0].Line, profile.Line{Function: p.Function[2], Line: 3})
+		p.Location[2].Line = append([]profile.Line{{Function: p.Function[1], Line: 8}}, p.Location[2].Line...)
+	}},
+	{"threshold", "bytes", 995, 5, nil}, // tiny is exactly nodefraction (0.5%) of the total
+	{"extreme", "bytes", 9223372036854775807, -9223372036854775808, nil},
 	{"no-samples", "milligcu", 0, 0, func(p *profile.Profile) { p.Sample = nil }},
 }
 
